@@ -275,6 +275,40 @@ int main ()
     O.puti (finite ? 1 : 0); O.puti (cs->fields == n ? 1 : 0); O.put ((double) e1); O.put ((double) e2); O.put ((double) e3); O.put ((double) e4); };
 
 
+  // oracle: the workers are driven by what the mode REPORTS through its virtual functions, whatever its dynamic type: user
+  // classes derived from each concrete mode class of the library that redefine get_covariance / get_crosscovariance with an
+  // arbitrary sequence (kind 0: mode, 1: lognormal_mode, 2: boxcar_modulated_mode, 3: square_modulated_mode, 4: modulated_mode
+  // via scripted_mod, 5: boxcar_mode), against the brute-force double sums.  Output: max relative errors
+  OP("o.c06.derived") { unsigned kind = A.n(); unsigned n = A.n(); unsigned lag = A.n(); double cv = A.d(); unsigned k = A.n(); std::vector<double> xs; for (unsigned i=0;i<k;i++) xs.push_back (A.d());
+    struct reports { double cv; std::vector<double> x;
+      Matrix<4,4,double> cov () const { Matrix<4,4,double> P = pattern(); P *= cv; return P; }
+      Matrix<4,4,double> xcov (unsigned l) const { Matrix<4,4,double> P = pattern(); P *= (l < x.size() ? x[l] : 0.0); return P; } } R { cv, xs };
+    struct d_ln : epsic::lognormal_mode { const reports* r; d_ln (epsic::mode* s, const reports* q) : lognormal_mode (s, 0.7), r (q) {}
+      Matrix<4,4,double> get_covariance () const { return r->cov(); } Matrix<4,4,double> get_crosscovariance (unsigned l) const { return r->xcov (l); } };
+    struct d_bx : epsic::boxcar_modulated_mode { const reports* r; d_bx (epsic::modulated_mode* s, const reports* q) : boxcar_modulated_mode (s, 3), r (q) {}
+      Matrix<4,4,double> get_covariance () const { return r->cov(); } Matrix<4,4,double> get_crosscovariance (unsigned l) const { return r->xcov (l); } };
+    struct d_sq : epsic::square_modulated_mode { const reports* r; d_sq (epsic::modulated_mode* s, const reports* q) : square_modulated_mode (s, 3, 5), r (q) {}
+      Matrix<4,4,double> get_covariance () const { return r->cov(); } Matrix<4,4,double> get_crosscovariance (unsigned l) const { return r->xcov (l); } };
+    struct d_sm : scripted_mod { const reports* r; d_sm (epsic::mode* s, const reports* q) : scripted_mod (s, 1.0, 0.5), r (q) {}
+      Matrix<4,4,double> get_covariance () const { return r->cov(); } Matrix<4,4,double> get_crosscovariance (unsigned l) const { return r->xcov (l); } };
+    struct d_bm : epsic::boxcar_mode { const reports* r; d_bm (epsic::mode* s, const reports* q) : boxcar_mode (s, 3), r (q) {}
+      Matrix<4,4,double> get_covariance () const { return r->cov(); } Matrix<4,4,double> get_crosscovariance (unsigned l) const { return r->xcov (l); } };
+    epsic::mode* base = new epsic::mode; epsic::lognormal_mode* ln = new epsic::lognormal_mode (new epsic::mode, 0.5); epsic::mode* m = 0;
+    stub_mode* st = new stub_mode; st->cv = cv; st->x = xs;
+    switch (kind) { case 0: m = st; break; case 1: m = new d_ln (base, &R); break; case 2: m = new d_bx (ln, &R); break; case 3: m = new d_sq (ln, &R); break;
+      case 4: m = new d_sm (base, &R); break; case 5: m = new d_bm (base, &R); break; default: throw std::runtime_error ("protocol:kind"); }
+    epsic::single smp (new epsic::mode); smp.sample_size = n;
+    Matrix<4,4,double> cov = smp.sample::get_covariance (m, n), xc = smp.sample::get_crosscovariance (m, lag, n);
+    epsic::single own (m); own.sample_size = n; Matrix<4,4,double> cov2 = own.get_covariance(), xc2 = own.get_crosscovariance (lag);
+    long double e1 = 0, e2 = 0, scale = std::max ((long double) 1e-300L, fabsl ((long double) R.cov()[0][0]));
+    for (unsigned l=0;l<xs.size();l++) scale = std::max (scale, fabsl ((long double) R.xcov(l)[0][0]));
+    for (int i=0;i<4;i++) for (int j=0;j<4;j++) { long double sc = 0, sx = 0;
+      for (unsigned a=0;a<n;a++) for (unsigned b=0;b<n;b++) {
+        unsigned l0 = (a > b) ? a-b : b-a; sc += (l0 == 0) ? (long double) R.cov()[i][j] : (long double) R.xcov (l0)[i][j];
+        unsigned l1 = (lag*n + a > b) ? lag*n + a - b : b - (lag*n + a); sx += (long double) R.xcov (l1)[i][j]; }
+      sc /= (long double)n*n; sx /= (long double)n*n;
+      e1 = std::max (e1, std::max (fabsl (cov[i][j] - sc), fabsl (cov2[i][j] - sc)) / scale); e2 = std::max (e2, std::max (fabsl (xc[i][j] - sx), fabsl (xc2[i][j] - sx)) / scale); }
+    O.put ((double) e1); O.put ((double) e2); };
   // oracle (history): ONE single sample over ONE rectangular-modulated log-normal mode, queried again and again while the
   // sample size changes and public functions that change the per-instance statistics are called in between (mut 1:
   // compute_cross_correlation for the new sample size, which changes every lag from 1 to the width and leaves the covariance
